@@ -711,6 +711,18 @@ pub fn check_quiesce(out: &RunOut, stats: &mut QuiesceStats) -> Vec<Violation> {
         stats.drops_checked += 1;
         let wname = format!("W{}", generation - 1);
         let Some(wtid) = out.ep.thread_names.iter().position(|n| *n == wname) else { continue };
+        // the directory lock is what keeps other processes out: from the moment this store's drop
+        // released it, the old worker must not touch the directory either
+        let begin = trace[..pos].iter().rposition(|e| matches!(e, Ev::H(HEv::DropBegin { generation: g }) if g == generation)).unwrap_or(pos);
+        if let Some(unlock_at) = trace[begin..pos].iter().position(|e| matches!(e, Ev::Fs(f) if f.file == LOCK && matches!(f.op, FsOp::Funlock | FsOp::Close))) {
+            for e2 in &trace[begin + unlock_at..pos] {
+                let Ev::Fs(f) = e2 else { continue };
+                if f.tid as usize == wtid && f.file != LOCK && matches!(f.op, FsOp::Write | FsOp::Unlink | FsOp::Ftruncate | FsOp::Create) && f.res >= 0 {
+                    vs.push(viol(prop, format!("mutation-after-lock-release:{:?}", f.op), format!("store generation {generation}: its worker did {:?} on {} after the directory lock had been released during drop (another process may already own the directory)", f.op, f.file)));
+                    break;
+                }
+            }
+        }
         for e2 in &trace[pos..] {
             let Ev::Fs(f) = e2 else { continue };
             if f.tid as usize != wtid || f.file == LOCK {
